@@ -511,12 +511,13 @@ func newValueFromVertex(v graph.Vertex) *Value {
 // Arg returns an Arg that can be used with Func.Call to send this value.
 // This only works if the Value's Value field is set.
 func (v *Value) Arg() Arg {
-	// A value that is declared with an interface type is sent under that
-	// type, whatever it holds: a bare concrete value (v.Value =
+	// A value is sent under the type it is declared with, whatever it holds:
+	// for an interface type a bare concrete value (v.Value =
 	// reflect.ValueOf(impl)) or a value of another interface type that is
 	// assignable to the declared one (say, taken from the result set of
-	// another function).
-	if v.Value.IsValid() && v.Type != nil && v.Type.Kind() == reflect.Interface &&
+	// another function); for any other type a value of a different type that
+	// is assignable to it ([]int for a defined slice type, chan T for <-chan T).
+	if v.Value.IsValid() && v.Type != nil && v.Value.Type() != v.Type &&
 		v.Value.Type().AssignableTo(v.Type) {
 		rv := reflect.New(v.Type).Elem()
 		rv.Set(v.Value)
